@@ -79,6 +79,9 @@ def check_shape(run, rng, model, m, tier, light=False):
             run.violation("oracle:clean_refusal", dict(base, what="asn1c did not refuse an unresolvable `{@...}` reference with its diagnostic", asn1c_rc=m.get("asn1c_rc"),
                                                        asn1c_out=m.get("asn1c_out", "")[-800:]))
         return
+    if m.get("asn1c_rc") == 70 and "-fcompound-names" not in m["opts"] and 'Use "-fcompound-names" flag' in m.get("asn1c_out", ""):
+        run.count("skipped_name_clash_without_compound_names")
+        return
     if not m.get("exe") and m.get("asn1c_rc") == 0 and m["rep"] == "wide":
         # finding C18-optional-identifier-wide-selector: the selector of an open type governed by an OPTIONAL member declares its value as
         # `const <member name>_t *` under -fwide-types (asn1c_type_name()'s static buffer is overwritten by MKID_safe() before it is used)
